@@ -84,7 +84,7 @@ func specCont(last, mid branchFormat, n *Node) string {
 
 // specPrefix: for x and each of its ancestors strictly below the root, taken top-down, the continuation string.
 //@ spec gtree.specPrefix
-//@   decreases x.hierarchy
+//@   decreases x == nil ? 0 : x.hierarchy
 func specPrefix(last, mid branchFormat, x *Node) string {
 	if x == nil || x.hierarchy <= 1 || x.parent == nil || x.parent.hierarchy >= x.hierarchy {
 		return ""
@@ -109,11 +109,17 @@ func specLine(last, mid branchFormat, n *Node) string {
 }
 
 // specRender: the lines of the subtree of n in depth-first pre-order.
+//@ spec gtree.specRender
+//@   requires nn: n != nil
+//@   decreases down(n), 1, 0
 func specRender(last, mid branchFormat, n *Node) string {
 	return specLine(last, mid, n) + specRenderKids(last, mid, n, len(n.children))
 }
 
 // specRenderKids: the rendering of the first i children of n, in order.
+//@ spec gtree.specRenderKids
+//@   requires nn: n != nil
+//@   decreases down(n), 0, i
 func specRenderKids(last, mid branchFormat, n *Node, i int) string {
 	if i <= 0 || i > len(n.children) {
 		return ""
@@ -126,6 +132,8 @@ func validElem(s string) bool {
 	return s != "" && s != "." && s != ".." && noSlashFrom(s, 0)
 }
 
+//@ spec gtree.noSlashFrom
+//@   decreases len(s) - i
 func noSlashFrom(s string, i int) bool {
 	if i < 0 || i >= len(s) {
 		return true
@@ -137,6 +145,9 @@ func noSlashFrom(s string, i int) bool {
 }
 
 // specValidUp: the names of n and of all its ancestors are single valid path elements.
+//@ spec gtree.specValidUp
+//@   requires nn: n != nil
+//@   decreases n.hierarchy
 func specValidUp(n *Node) bool {
 	if !validElem(n.name) {
 		return false
@@ -148,6 +159,9 @@ func specValidUp(n *Node) bool {
 }
 
 // specPath: the names from the root down to n joined by "/".
+//@ spec gtree.specPath
+//@   requires nn: n != nil
+//@   decreases n.hierarchy
 func specPath(n *Node) string {
 	if n.hierarchy <= 1 || n.parent == nil || n.parent.hierarchy >= n.hierarchy {
 		return n.name
@@ -177,7 +191,16 @@ func specPath(n *Node) string {
 //@   ensures slash [C07]: result == nil ==> noSlashFrom(n.name, 0)
 //@   ensures valid [C07]: result == nil ==> (n.hierarchy == 1 ? fsValid(n.name) : fsValid(n.brnch.path))
 
+// ghostAssert(b): proof hint — b must be provable here and is then available as a hypothesis.
+//@ func gtree.ghostAssert
+//@   nowf
+//@   requires holds: b
+//@   ensures holds: b
+func ghostAssert(b bool) {}
+
 // specDesc: n lies in the subtree of r (n == r, or n's parent does).
+//@ spec gtree.specDesc
+//@   decreases n == nil ? 0 : n.hierarchy
 func specDesc(r, n *Node) bool {
 	if n == r {
 		return true
@@ -258,3 +281,103 @@ func lemmaDescUnique(a, b, n *Node) {
 //@   ensures noval [C01]: !dg.enabledValidation ==> result == nil
 //@ loop gtree.defaultGrowerSimple.grow#1
 //@   invariant done: forall k int, n *Node :: {specDesc(roots[k], n)} 0 <= k && k < $i && specDesc(roots[k], n) ==> n.brnch.value == specBranch(dg.lastNodeFormat, dg.intermedialNodeFormat, n)
+
+// ---------------------------------------------------------------------------------------------
+// simple_tree_spreader.go (text)
+
+// specRaw: what the text spreader prints for the subtree of n, reading the cached branch strings.
+//@ spec gtree.specRaw
+//@   requires nn: n != nil
+//@   decreases down(n), 1, 0
+func specRaw(n *Node) string {
+	return specRawLine(n) + specRawKids(n, len(n.children))
+}
+
+func specRawLine(n *Node) string {
+	if n.hierarchy == 1 {
+		return n.name + "\n"
+	}
+	return n.brnch.value + " " + n.name + "\n"
+}
+
+//@ spec gtree.specRawKids
+//@   requires nn: n != nil
+//@   decreases down(n), 0, i
+func specRawKids(n *Node, i int) string {
+	if i <= 0 || i > len(n.children) {
+		return ""
+	}
+	return specRawKids(n, i-1) + specRaw(n.children[i-1])
+}
+
+//@ func gtree.defaultSpreaderSimple.spreadBranch
+//@   requires nn: ds != nil && current != nil
+//@   modifies out, wfail
+//@   decreases down(current)
+//@   ensures render [C01,C03]: !wfail ==> out[ds.w] == old(out[ds.w]) ++ specRaw(current)
+//@   ensures frame: forall v any :: {out[v]} v != ds.w ==> out[v] == old(out[v])
+//@   ensures sticky [C14]: old(wfail) ==> wfail
+//@ loop gtree.defaultSpreaderSimple.spreadBranch#1
+//@   invariant sofar: !wfail ==> out[ds.w] == old(out[ds.w]) ++ specRawLine(current) ++ specRawKids(current, $i)
+//@   invariant frame: forall v any :: {out[v]} v != ds.w ==> out[v] == old(out[v])
+//@   invariant sticky: old(wfail) ==> wfail
+
+// specRawAll / specRenderAll: the first i roots, in order.
+//@ spec gtree.specRawAll
+//@   decreases i
+func specRawAll(roots []*Node, i int) string {
+	if i <= 0 || i > len(roots) {
+		return ""
+	}
+	return specRawAll(roots, i-1) + specRaw(roots[i-1])
+}
+
+//@ spec gtree.specRenderAll
+//@   decreases i
+func specRenderAll(last, mid branchFormat, roots []*Node, i int) string {
+	if i <= 0 || i > len(roots) {
+		return ""
+	}
+	return specRenderAll(last, mid, roots, i-1) + specRender(last, mid, roots[i-1])
+}
+
+// grown(last, mid, r): every node of the subtree of r carries the branch string the drawing rule prescribes.
+//@ pred grown(last branchFormat, mid branchFormat, r *Node): forall m *Node :: {specDesc(r, m)} specDesc(r, m) ==> m.brnch.value == specBranch(last, mid, m)
+
+//@ lemma gtree.lemmaRawIsRender
+//@   requires nn: n != nil
+//@   requires g: grown(last, mid, n)
+//@   ensures eq: specRaw(n) == specRender(last, mid, n)
+//@   trigger specRender(last, mid, n)
+//@   decreases down(n), 1, 0
+func lemmaRawIsRender(last, mid branchFormat, n *Node) {
+	ghostAssert(specDesc(n, n))
+	lemmaRawKidsIsRender(last, mid, n, len(n.children))
+}
+
+//@ lemma gtree.lemmaRawKidsIsRender
+//@   requires nn: n != nil && 0 <= i && i <= len(n.children)
+//@   requires g: grown(last, mid, n)
+//@   use lemma lemmaDescUp
+//@   ensures eq: specRawKids(n, i) == specRenderKids(last, mid, n, i)
+//@   decreases down(n), 0, i
+func lemmaRawKidsIsRender(last, mid branchFormat, n *Node, i int) {
+	if i > 0 {
+		lemmaRawKidsIsRender(last, mid, n, i-1)
+		lemmaRawIsRender(last, mid, n.children[i-1])
+	}
+}
+
+//@ func gtree.defaultSpreaderSimple.spread
+//@   requires nn: ds != nil
+//@   requires roots: forall k int :: {roots[k]} 0 <= k && k < len(roots) ==> roots[k] != nil
+//@   modifies out, wfail, ds.w
+//@   ensures render [C01]: !wfail ==> out[w] == old(out[w]) ++ specRawAll(roots, len(roots))
+//@   ensures frame: forall v any :: {out[v]} v != w ==> out[v] == old(out[v])
+//@   ensures sticky [C14]: old(wfail) ==> wfail
+//@   ensures nil [C01]: result == nil
+//@ loop gtree.defaultSpreaderSimple.spread#1
+//@   invariant w: ds.w == w
+//@   invariant sofar: !wfail ==> out[w] == old(out[w]) ++ specRawAll(roots, $i)
+//@   invariant frame: forall v any :: {out[v]} v != w ==> out[v] == old(out[v])
+//@   invariant sticky: old(wfail) ==> wfail
